@@ -27,6 +27,7 @@ type wrInput struct {
 	GoMaxProcs int     `json:"gomaxprocs"`
 	Tail       int     `json:"partial_tail_bytes"` // a truncated last frame
 	PauseEvery int     `json:"pause_every_chunks"`
+	SpreadMs   int     `json:"spread_ms,omitempty"` // > 0: frames are sent one by one, evenly over this many milliseconds
 }
 
 func wrFrames(in wrInput) [][]byte {
@@ -81,6 +82,18 @@ func wrRun(in wrInput, extraWrap []string) (files [][]byte, log string, ok bool)
 	data := stream.Bytes()
 	ci := 0
 	nch := 0
+	if in.SpreadMs > 0 {
+		// a long-lived connection (the writer starts a new file every newFileInterval)
+		conn.Write([]byte(hdr))
+		gap := time.Duration(in.SpreadMs) * time.Millisecond / time.Duration(len(frames)+1)
+		for _, f := range frames {
+			if _, err := conn.Write(f); err != nil {
+				break
+			}
+			time.Sleep(gap)
+		}
+		data = nil
+	}
 	for len(data) > 0 {
 		n := in.Chunks[ci%len(in.Chunks)]
 		ci++
@@ -253,6 +266,54 @@ func init() {
 			}
 			emit(Case{Coq: wrCoq(in, files), Input: in, Impl: map[string]interface{}{"files": len(files), "bytes": total, "driver": strings.TrimSpace(line)},
 				Tags: tags, Nontriv: in.Frames >= 2, Key: fmt.Sprint(in.FrameSize, in.Frames, in.Seed)})
+		}
+	}
+}
+
+// WRITERROT: one connection kept open across the writer's file rotation (newFileInterval, one
+// minute): frames trickle in for 63 s, then the camera disconnects.  Judged here: at least two
+// files, every file parses, all frames exactly once, in order, byte for byte - in particular
+// the frames written after the rotation are flushed when the connection ends.
+func init() {
+	runners["WRITERROT"] = func(rng *rand.Rand, n int, tier string, emit func(Case)) {
+		for i := 0; i < n; i++ {
+			in := wrGen(rng, i, false)
+			in.FrameSize = 64 + rng.Intn(64)
+			in.Frames = 240 + rng.Intn(40)
+			in.Tail, in.PauseEvery = 0, 0
+			in.GoMaxProcs = []int{2, 1, 4, 16}[i%4]
+			in.SpreadMs = 63000
+			files, line, done := wrRun(in, nil)
+			sent := wrFrames(in)
+			ok := done
+			why := ""
+			if !done {
+				why = "writer goroutine did not finish"
+			}
+			var got [][]byte
+			for _, f := range files {
+				_, fr, err := cptrParse(f)
+				if err != nil {
+					ok, why = false, "file does not parse: "+err.Error()
+				}
+				got = append(got, fr...)
+			}
+			if len(files) < 2 {
+				ok, why = false, fmt.Sprintf("%d file(s): no rotation observed in 63 s", len(files))
+			}
+			if len(got) != len(sent) {
+				ok, why = false, fmt.Sprintf("%d frames stored, %d sent (%d files)", len(got), len(sent), len(files))
+			} else {
+				for k := range got {
+					if !bytes.Equal(got[k], sent[k]) {
+						ok, why = false, fmt.Sprintf("frame %d differs", k)
+						break
+					}
+				}
+			}
+			emit(Case{Coq: fmt.Sprintf("mkLag %s %d %d", coqBool(ok), 0, len(sent)), Input: in,
+				Impl: map[string]interface{}{"ok": ok, "why": why, "files": len(files), "driver": strings.TrimSpace(line)},
+				Tags: []string{fmt.Sprintf("files=%d", len(files)), "rotation"}, Nontriv: len(files) >= 2, Key: fmt.Sprint("rot", in.Seed)})
 		}
 	}
 }
